@@ -84,6 +84,9 @@ def explore(ctx, rng, count):
 
 
 def replay(ctx, obj):
+    if obj.get("kind") == "twin-units":
+        from . import c12
+        return c12.replay_twin(ctx, obj, "C09")
     if obj.get("monitor") in ("offc", "onc"):
         from .. import dense
         return dense.replay_modular(ctx, obj)
